@@ -46,8 +46,8 @@ static void HarnessAbort(const std::string & why) { fprintf(stderr, "HARNESS-ABO
 #define OKB(expr) do { status_t r__ = (expr); if (r__.IsError()) HarnessAbort(std::string("build step failed: " #expr " [") + r__() + "]"); } while (0)
 
 // ------------------------------------------------------------------------------------------------ gateway configurations
-enum { F_MSG = 0, F_COUNTED, F_TMPL, F_TEXT, F_TEXTFOREIGN, F_RAW, F_SLIP, F_WS, F_WSFOREIGN, F_CGW, NUM_FAMILIES };
-static const char * FamilyName(int f) { static const char * const n[] = {"msg", "counted", "tmpl", "text", "textforeign", "raw", "slip", "ws", "wsforeign", "cgw"}; return n[f]; }
+enum { F_MSG = 0, F_COUNTED, F_TMPL, F_TEXT, F_TEXTFOREIGN, F_RAW, F_SLIP, F_WS, F_WSFOREIGN, F_CGW, F_FANOUT, NUM_FAMILIES };
+static const char * FamilyName(int f) { static const char * const n[] = {"msg", "counted", "tmpl", "text", "textforeign", "raw", "slip", "ws", "wsforeign", "cgw", "fanout"}; return n[f]; }
 struct Cfg { const char * name; int family; int a; int b; };
 static const Cfg CFGS[] = {
    {"msg_enc0", F_MSG, 0, 0}, {"msg_zlib1", F_MSG, 1, 0}, {"msg_zlib2", F_MSG, 2, 0}, {"msg_zlib3", F_MSG, 3, 0}, {"msg_zlib4", F_MSG, 4, 0}, {"msg_zlib5", F_MSG, 5, 0},
@@ -58,6 +58,9 @@ static const Cfg CFGS[] = {
    {"slip", F_SLIP, 0, 0},
    {"ws_hs_slave", F_WS, 1, 1}, {"ws_hs_builtin", F_WS, 1, 0}, {"ws_nohs_slave", F_WS, 0, 1}, {"ws_nohs_builtin", F_WS, 0, 0}, {"ws_foreign", F_WSFOREIGN, 0, 0},
    {"cgw_cpp2mini", F_CGW, 0, 0}, {"cgw_mini2cpp", F_CGW, 1, 0}, {"cgw_cpp2micro", F_CGW, 2, 0}, {"cgw_micro2cpp", F_CGW, 3, 0},
+   {"fanout", F_FANOUT, 0, 0}, {"fanout2", F_FANOUT, 0, 0},                      // one MessageRef to 2-4 sender gateways (reuse tag); listed twice: twice the share of cases
+   {"raw_counted", F_RAW, 0, 1},                                                 // CountedRawDataMessageIOGateway on both ends
+   {"text_flush", F_TEXTFOREIGN, 1, 0}, {"text_telnet", F_TEXTFOREIGN, 2, 0},    // foreign text: unterminated last line + end of stream; TelnetPlainTextMessageIOGateway
 };
 static const int NCFG = (int)(sizeof(CFGS) / sizeof(CFGS[0]));
 
@@ -180,13 +183,21 @@ struct Rx : public AbstractGatewayMessageReceiver {
 struct Session {
    const Cfg & cfg; Chopper chop; std::vector<Pipe *> pipes; vh::Rng sq; bool shortSeq; int fixed;   // fixed: 0 random plan, 1 the sweep's fixed plan, 2 its tiny two-item prefix
    bool failed; std::string failKey, failDetail; uint32 planned, queued; long delivered;
-   Session(const Cfg & c, uint64_t seqSeed, uint64_t schedSeed, bool s, int fx) : cfg(c), chop(vh::mix64(schedSeed ^ 0xC0FFEEULL)), sq(seqSeed), shortSeq(s), fixed(fx), failed(false), planned(0), queued(0), delivered(0) {}
+   Session(const Cfg & c, uint64_t seqSeed, uint64_t schedSeed, bool s, int fx) : cfg(c), chop(vh::mix64(schedSeed ^ 0xC0FFEEULL)), sq(seqSeed), shortSeq(s), fixed(fx), failed(false), planned(0), queued(0), delivered(0), resets(0) {}
    virtual ~Session() {}
    virtual bool QueueNext() = 0;                  // hand the next planned item to a sender; false = not possible right now
    virtual int NumActions() const = 0;
    virtual long Act(int a, uint32 maxBytes) = 0;  // one DoOutput / DoInput; bytes moved, or -1 after Fail()
    virtual void Finish() = 0;                     // the oracle
    virtual bool ChoppedWrites() const { return true; }   // false when a foreign writer appends to the pipe directly
+   // Reset-then-reuse (AbstractMessageIOGateway::Reset(): "any partially completed sends and receives should be cleared, so that the gateway is ready to
+   // send and receive fresh data streams"): what arrived so far must be a prefix of what was sent; then BOTH ends are Reset(), the bytes in flight are
+   // discarded (Pipe::Restart()) and a second sequence is planned, which must be delivered exactly.
+   virtual bool SupportsReset() const { return false; }
+   virtual bool ResetAllowedNow() const { return true; }
+   virtual void ResetAndReplan() {}
+   int resets;
+   void RestartPipe(size_t idx) { pipes[idx]->Restart(); chop.NoteRestart((uint8_t)idx, pipes[idx]->Written()); }
    virtual std::string Describe() const { return ""; }
    void Fail(const std::string & rule, const std::string & detail) { if (failed) return; failed = true; failKey = std::string(FamilyName(cfg.family)) + "|" + rule; failDetail = detail; }
    long Io(const io_status_t & st, const char * call) { if (st.IsError()) { Fail(std::string("gateway-error|") + call, vh::fmt("%s returned error [%s]", call, st.GetStatus()())); return -1; } return st.GetByteCount(); }
@@ -214,6 +225,13 @@ static void CompareSeq(Session & s, const char * what, const std::vector<std::st
    s.Fail(rule, d);
 }
 
+// before a Reset(): what has arrived must be a prefix of what was sent
+static void ComparePrefix(Session & s, const char * what, const std::vector<std::string> & exp, const std::vector<std::string> & got, bool binary)
+{
+   if (got.size() > exp.size()) { CompareSeq(s, what, exp, got, binary); return; }
+   std::vector<std::string> e(exp.begin(), exp.begin() + got.size()); CompareSeq(s, what, e, got, binary);
+}
+
 // ------------------------------------------------------------------------------------------------ MessageIOGateway / Counted / Templating
 struct BinSession : public Session {
    Pipe pipe; ChopDataIO sio, rio; AbstractMessageIOGatewayRef S, R; Rx rx;
@@ -226,12 +244,25 @@ struct BinSession : public Session {
       else if (cfg.family == F_COUNTED) { int e = fixed ? 0 : sq.R(3) == 0 ? 6 : sq.R(2) ? 0 : (int)sq.R(10); S.SetRef(sCounted = new CountedMessageIOGateway(D + e)); sMsg = sCounted; R.SetRef(new CountedMessageIOGateway()); }
       else { S.SetRef(sMsg = sCounted = new TemplatingMessageIOGateway((uint32)cfg.a, D + cfg.b)); R.SetRef(new TemplatingMessageIOGateway((uint32)cfg.a)); }
       S()->SetDataIO(DummyDataIORef(sio)); R()->SetDataIO(DummyDataIORef(rio));
+      Replan();
+   }
+   void Replan()
+   {
+      plan.clear(); encPlan.clear(); exp.clear(); rx.got.clear(); queued = 0;
       if (cfg.family == F_TMPL) PlanTemplating(); else PlanPlain();
       planned = (uint32)plan.size(); encPlan.resize(plan.size(), -1);
       if (cfg.family == F_MSG && cfg.a < 0) for (size_t i = 0; i < plan.size(); i++) if (fixed ? (i % 2 == 1) : sq.R(3) == 0) encPlan[i] = fixed ? (int)((i * 3) % 10) : (int)sq.R(10);
       for (size_t i = 0; i < plan.size(); i++) exp.push_back(Flat(*plan[i]()));
    }
    ~BinSession() { S()->SetDataIO(DataIORef()); R()->SetDataIO(DataIORef()); }
+   virtual bool SupportsReset() const { return true; }
+   virtual void ResetAndReplan()
+   {
+      ComparePrefix(*this, "Message (before Reset)", exp, rx.got, true); if (failed) return;
+      S()->Reset(); R()->Reset(); RestartPipe(0); resets++; CheckCounted("after Reset()");
+      if (S()->HasBytesToOutput()) { Fail("reset|HasBytesToOutput", "the sender reports bytes to output right after Reset()"); return; }
+      Replan();
+   }
    void FixedPlan()
    {  // what-only, small, exactly 2048 and 2049 frame bytes (scratch buffer fits / does not fit), small
       plan.push_back(GetMessageFromPool(7)); plan.push_back(LocalMsg(sq));
@@ -292,57 +323,113 @@ struct BinSession : public Session {
 
 // ------------------------------------------------------------------------------------------------ PlainText (muscle sender, or a foreign sender writing raw text)
 struct TextSession : public Session {
-   Pipe pipe; ChopDataIO sio, rio; PlainTextMessageIOGateway S, R; Rx rx;
-   std::vector<MessageRef> plan; std::vector<std::string> rawPlan, exp; bool foreign;
-   TextSession(const Cfg & c, uint64_t seqSeed, uint64_t schedSeed, bool s, int fx) : Session(c, seqSeed, schedSeed, s, fx), pipe(chopio::FR_LINES), sio(NULL, &pipe, &chop), rio(&pipe, NULL, &chop), rx(1), foreign(c.family == F_TEXTFOREIGN)
+   Pipe pipe; ChopDataIO sio, rio; PlainTextMessageIOGateway S; PlainTextMessageIOGatewayRef R; Rx rx;
+   std::vector<MessageRef> plan; std::vector<std::string> rawPlan, exp; bool foreign, telnet, willClose, eof; size_t phaseStart; std::string eol;
+   TextSession(const Cfg & c, uint64_t seqSeed, uint64_t schedSeed, bool s, int fx) : Session(c, seqSeed, schedSeed, s, fx), pipe(chopio::FR_LINES), sio(NULL, &pipe, &chop), rio(&pipe, NULL, &chop), rx(1), foreign(c.family == F_TEXTFOREIGN), telnet(c.family == F_TEXTFOREIGN && c.a == 2), willClose(false), eof(false), phaseStart(0), eol("\r\n")
    {
-      pipes.push_back(&pipe); S.SetDataIO(DummyDataIORef(sio)); R.SetDataIO(DummyDataIORef(rio));
+      pipes.push_back(&pipe); if (telnet) R.SetRef(new TelnetPlainTextMessageIOGateway); else R.SetRef(new PlainTextMessageIOGateway);
+      S.SetDataIO(DummyDataIORef(sio)); R()->SetDataIO(DummyDataIORef(rio));
+      if (!foreign && !fixed) { static const char * const E[4] = {"\r\n", "\r\n", "\n", "\r"}; eol = E[sq.R(4)]; S.SetOutgoingEndOfLineString(eol.c_str()); if (eol != "\r\n") vh::stat("text_cases_with_other_eol_string"); }
+      Replan();
+   }
+   // telnet: IAC + 2 bytes, IAC SB ... IAC SE sub-negotiations, stray high-bit bytes: all stripped by the receiver, wherever a read boundary falls
+   void AddTelnetNoise(std::string & raw)
+   {
+      switch (sq.R(4)) {
+      case 0: raw += (char)255; raw += (char)(251 + sq.R(4)); raw += (char)sq.R(50); vh::stat("telnet_commands"); break;                                   // IAC WILL/WONT/DO/DONT option
+      case 1: raw += (char)255; raw += (char)250; raw += (char)sq.R(40); { uint32 n = sq.R(12); for (uint32 k = 0; k < n; k++) raw += (char)(sq.R(6) == 0 ? (sq.R(2) ? '\r' : '\n') : 32 + sq.R(90)); } raw += (char)255; raw += (char)240; vh::stat("telnet_subnegotiations"); break;
+      case 2: raw += (char)(128 + sq.R(112)); vh::stat("telnet_high_bit_bytes"); break;                                                                  // 128..239: no telnet meaning, stripped
+      default: raw += (char)255; raw += (char)(241 + sq.R(9)); raw += (char)(sq.R(3) == 0 ? '\n' : 'x'); vh::stat("telnet_commands"); break;              // a 3-byte command whose last byte may look like a terminator
+      }
+   }
+   void Replan()
+   {
+      plan.clear(); rawPlan.clear(); exp.clear(); rx.got.clear(); queued = 0; eof = false; phaseStart = pipe.Written();
+      willClose = foreign && (cfg.a == 1 || (cfg.a == 2 && sq.R(2)));   // (the sweep's fixed plan draws from a fixed seed, so it is the same every time)
       uint32 nm = fixed == 2 ? 2 : fixed ? 5 : shortSeq ? 1 + sq.R(4) : 1 + sq.R(12);
       for (uint32 i = 0; i < nm; i++) {
          uint32 nl = fixed ? 2 : sq.R(10) == 0 ? 0 : 1 + sq.R(4); MessageRef m = GetMessageFromPool(PR_COMMAND_TEXT_STRINGS); std::string raw;
          for (uint32 j = 0; j < nl; j++) {
             uint32 len = fixed ? ((i == 3 && j == 0) ? 2100 : (j == 1 && i % 2) ? 0 : 5 + i) : sq.R(5) == 0 ? 0 : sq.R(6) == 0 ? sq.R(5000) : sq.R(30);
-            std::string l = RandLine(sq, len);
-            if (foreign) { static const char * const T[3] = {"\r\n", "\n", "\r"}; raw += l; raw += T[fixed ? (i + j) % 3 : sq.R(3)]; }
+            std::string l = telnet ? RandLetters(sq, len) : RandLine(sq, len);
+            if (foreign) {
+               static const char * const T[3] = {"\r\n", "\n", "\r"};
+               if (telnet) { std::string t; size_t from = 0; uint32 ins = sq.R(4); for (uint32 k = 0; k < ins; k++) { size_t at = from + sq.R((uint32)(l.size() - from) + 1); t.append(l, from, at - from); AddTelnetNoise(t); from = at; } t.append(l, from, std::string::npos); l = t; }
+               raw += l; if (!(willClose && i + 1 == nm && j + 1 == nl && sq.R(4))) raw += T[fixed ? (i + j) % 3 : sq.R(3)]; else vh::stat("text_unterminated_last_lines");
+               if (telnet && sq.R(3) == 0) AddTelnetNoise(raw);
+            }
             else { OKB(m()->AddString(PR_NAME_TEXT_LINE, l.c_str())); exp.push_back("T:" + l); }
          }
          if (foreign) rawPlan.push_back(raw); else plan.push_back(m);
       }
       planned = nm;
    }
-   ~TextSession() { S.SetDataIO(DataIORef()); R.SetDataIO(DataIORef()); }
+   ~TextSession() { S.SetDataIO(DataIORef()); R()->SetDataIO(DataIORef()); }
    virtual bool ChoppedWrites() const { return !foreign; }
+   virtual bool SupportsReset() const { return true; }
+   virtual void ResetAndReplan()
+   {
+      if (foreign) Reference();
+      ComparePrefix(*this, "text line (before Reset)", exp, rx.got, false); if (failed) return;
+      if (!foreign) S.Reset(); R()->Reset(); RestartPipe(0); resets++;
+      if (!foreign && S.HasBytesToOutput()) { Fail("reset|HasBytesToOutput", "the sender reports bytes to output right after Reset()"); return; }
+      if (R()->HasBufferedIncomingText()) { Fail("reset|buffered-text-survives", "the receiver still holds buffered incoming text right after Reset()"); return; }
+      Replan();
+   }
    virtual bool QueueNext()
    {
       if (queued >= planned) return false;
-      if (foreign) pipe.Append(rawPlan[queued]); else { status_t r = S.AddOutgoingMessage(plan[queued]); if (r.IsError()) { Fail("gateway-error|AddOutgoingMessage", r()); return false; } }
+      if (foreign) { pipe.Append(rawPlan[queued]); if (willClose && queued + 1 == planned) pipe.closed = true; } else { status_t r = S.AddOutgoingMessage(plan[queued]); if (r.IsError()) { Fail("gateway-error|AddOutgoingMessage", r()); return false; } }
       queued++; return true;
    }
    virtual int NumActions() const { return foreign ? 1 : 2; }
-   virtual long Act(int a, uint32 mb) { if (a == 0 && !foreign) return Io(S.DoOutput(mb), "DoOutput"); return Io(R.DoInput(rx, mb), "DoInput"); }
+   virtual long Act(int a, uint32 mb)
+   {
+      if (a == 0 && !foreign) return Io(S.DoOutput(mb), "DoOutput");
+      if (eof) return 0;
+      const bool atEnd = pipe.closed && pipe.Empty(); io_status_t st = R()->DoInput(rx, mb);
+      if (atEnd && st.IsError()) { eof = true; vh::stat("text_end_of_stream_seen"); return 0; }   // the stream has ended: the gateway reports the error and must first flush an unterminated last line
+      return Io(st, "DoInput");
+   }
+   // reference for a foreign stream, judged on the bytes actually written since the last Reset(): (telnet: strip command bytes first, with the state
+   // machine the class describes, over the UNSEGMENTED stream;) CR, LF and CRLF each end a line; an unterminated tail is delivered when the stream ends
+   void Reference()
+   {
+      exp.clear(); std::string cur, f; const std::vector<uint8_t> & b = pipe.buf;
+      if (telnet) { uint32 left = 0; bool sub = false; for (size_t i = phaseStart; i < b.size(); i++) { uint8_t c = b[i]; bool keep = (c & 0x80) == 0; if (c == 255) left = 3; else if (c == 250) sub = true; else if (c == 240) { sub = false; left = 0; } if (left > 0) { left--; keep = false; } if (sub) keep = false; if (keep) f.push_back((char)c); } }
+      else f.assign(b.begin() + (long)phaseStart, b.end());
+      for (size_t i = 0; i < f.size(); i++) { if (f[i] == '\r') { exp.push_back("T:" + cur); cur.clear(); if (i + 1 < f.size() && f[i + 1] == '\n') i++; } else if (f[i] == '\n') { exp.push_back("T:" + cur); cur.clear(); } else cur.push_back(f[i]); }
+      if (eof && !cur.empty()) exp.push_back("T:" + cur);
+   }
    virtual void Finish()
    {
-      if (foreign) {   // reference: CR, LF and CRLF each end a line; judged on the bytes actually written
-         exp.clear(); std::string cur; const std::vector<uint8_t> & b = pipe.buf;
-         for (size_t i = 0; i < b.size(); i++) { if (b[i] == '\r') { exp.push_back("T:" + cur); cur.clear(); if (i + 1 < b.size() && b[i + 1] == '\n') i++; } else if (b[i] == '\n') { exp.push_back("T:" + cur); cur.clear(); } else cur.push_back((char)b[i]); }
-      }
+      if (foreign) { if (pipe.closed && !eof && !failed) Fail("end-state|end-of-stream-not-reported", "the stream was closed and drained, but no DoInput() call reported it"); Reference(); }
       CompareSeq(*this, "text line", exp, rx.got, false);
-      if (!foreign) { EndState(S.HasBytesToOutput(), "sender"); EndStatus(S, "sender"); } EndPipes(); EndStatus(R, "receiver");
+      if (!foreign) { EndState(S.HasBytesToOutput(), "sender"); EndStatus(S, "sender"); } EndPipes(); EndStatus(*R(), "receiver");
    }
-   virtual std::string Describe() const { std::string d = vh::fmt("%zu lines, lengths:", exp.size()); for (size_t i = 0; i < exp.size() && i < 40; i++) d += vh::fmt(" %zu", exp[i].size() - 2); if (foreign) { d += " | stream: "; for (size_t i = 0; i < pipe.buf.size() && i < 300; i++) d += pipe.buf[i] == '\r' ? std::string("\\r") : pipe.buf[i] == '\n' ? std::string("\\n") : (pipe.buf[i] >= 32 && pipe.buf[i] < 127) ? std::string(1, (char)pipe.buf[i]) : std::string("?"); } return d; }
+   virtual std::string Describe() const { std::string d = vh::fmt("eol=%s telnet=%d closes=%d; %zu lines, lengths:", eol == "\r\n" ? "CRLF" : eol == "\n" ? "LF" : "CR", (int)telnet, (int)willClose, exp.size()); for (size_t i = 0; i < exp.size() && i < 40; i++) d += vh::fmt(" %zu", exp[i].size() - 2); if (foreign) { d += " | stream: "; for (size_t i = phaseStart; i < pipe.buf.size() && i < phaseStart + 300; i++) d += pipe.buf[i] == '\r' ? std::string("\\r") : pipe.buf[i] == '\n' ? std::string("\\n") : (pipe.buf[i] >= 32 && pipe.buf[i] < 127) ? std::string(1, (char)pipe.buf[i]) : vh::fmt("<%02x>", pipe.buf[i]); } return d; }
 };
 
 // ------------------------------------------------------------------------------------------------ RawData (min-chunk) and SLIP
 static bool gZeroChunks = false;   // --opt zerochunks=1: also 0-byte chunks (added with AddFlat(empty ByteBuffer)); judged under the key <family>|zero-length-chunk-drops-rest-of-message
 struct RawSession : public Session {
    Pipe pipe; ChopDataIO sio, rio; AbstractMessageIOGatewayRef S, R; Rx rx; bool slip; uint32 minChunk, maxChunk;
-   std::vector<MessageRef> plan; std::vector<std::string> chunks; int capW;
-   RawSession(const Cfg & c, uint64_t seqSeed, uint64_t schedSeed, bool s, int fx) : Session(c, seqSeed, schedSeed, s, fx), pipe(c.family == F_SLIP ? chopio::FR_SLIP : (c.a > 1 ? chopio::FR_FIXED : chopio::FR_NONE), (uint32_t)c.a), sio(NULL, &pipe, &chop), rio(&pipe, NULL, &chop), rx(1), slip(c.family == F_SLIP), minChunk((uint32)c.a), maxChunk(MUSCLE_NO_LIMIT), capW(-1)
+   std::vector<MessageRef> plan; std::vector<std::string> chunks; int capW; CountedRawDataMessageIOGateway * sCR;
+   RawSession(const Cfg & c, uint64_t seqSeed, uint64_t schedSeed, bool s, int fx) : Session(c, seqSeed, schedSeed, s, fx), pipe(c.family == F_SLIP ? chopio::FR_SLIP : (c.a > 1 ? chopio::FR_FIXED : chopio::FR_NONE), (uint32_t)c.a), sio(NULL, &pipe, &chop), rio(&pipe, NULL, &chop), rx(1), slip(c.family == F_SLIP), minChunk((uint32)c.a), maxChunk(MUSCLE_NO_LIMIT), capW(-1), sCR(NULL)
    {
       pipes.push_back(&pipe);
       if (slip) { S.SetRef(new SLIPFramedDataMessageIOGateway); R.SetRef(new SLIPFramedDataMessageIOGateway); }
-      else { static const uint32 MX[] = {MUSCLE_NO_LIMIT, MUSCLE_NO_LIMIT, 1, 16, 5000}; if (minChunk == 0 && !fixed) maxChunk = MX[sq.R(5)]; S.SetRef(new RawDataMessageIOGateway(sq.R(2) ? 0 : 7)); R.SetRef(new RawDataMessageIOGateway(minChunk, maxChunk)); }
+      else {
+         static const uint32 MX[] = {MUSCLE_NO_LIMIT, MUSCLE_NO_LIMIT, 1, 16, 5000}; if (minChunk == 0 && !fixed) maxChunk = MX[sq.R(5)]; uint32 sMin = sq.R(2) ? 0 : 7;
+         if (cfg.b) { if (!fixed) { static const uint32 MN[] = {0, 0, 1, 7}; minChunk = MN[sq.R(4)]; if (minChunk) maxChunk = MUSCLE_NO_LIMIT; } S.SetRef(sCR = new CountedRawDataMessageIOGateway(sMin)); R.SetRef(new CountedRawDataMessageIOGateway(minChunk, maxChunk)); }
+         else { S.SetRef(new RawDataMessageIOGateway(sMin)); R.SetRef(new RawDataMessageIOGateway(minChunk, maxChunk)); }
+      }
       S()->SetDataIO(DummyDataIORef(sio)); R()->SetDataIO(DummyDataIORef(rio));
+      Replan();
+   }
+   void Replan()
+   {
+      plan.clear(); chunks.clear(); rx.got.clear(); queued = 0;
       uint32 nm = fixed == 2 ? 2 : fixed ? 4 : shortSeq ? 1 + sq.R(4) : 1 + sq.R(10);
       for (uint32 i = 0; i < nm; i++) {
          MessageRef m = GetMessageFromPool(PR_COMMAND_RAW_DATA); uint32 nc = fixed ? 1 + i % 2 : sq.R(12) == 0 ? 0 : 1 + sq.R(3);
@@ -359,26 +446,43 @@ struct RawSession : public Session {
       planned = nm;
    }
    ~RawSession() { S()->SetDataIO(DataIORef()); R()->SetDataIO(DataIORef()); }
-   virtual bool QueueNext() { if (queued >= planned) return false; status_t r = S()->AddOutgoingMessage(plan[queued]); if (r.IsError()) { Fail("gateway-error|AddOutgoingMessage", r()); return false; } queued++; return true; }
+   // CountedRawDataMessageIOGateway: "the number of bytes of data currently present in our outgoing-data-queue" = raw bytes of the Messages still queued
+   void CheckCounted(const char * when)
+   {
+      if (sCR == NULL || failed) return;
+      uint32 sum = 0; const Queue<MessageRef> & q = S()->GetOutgoingMessageQueue();
+      for (uint32 i = 0; i < q.GetNumItems(); i++) { const void * d; uint32 n; for (uint32 j = 0; q[i]()->FindData(PR_NAME_DATA_CHUNKS, B_ANY_TYPE, j, &d, &n).IsOK(); j++) sum += n; }
+      vh::stat("countedraw_checks"); if (q.GetNumItems() >= 2) vh::stat("countedraw_checks_with_2plus_queued");
+      if (sCR->GetNumOutgoingDataBytes() != sum) Fail("counted-bytes", vh::fmt("%s: CountedRawDataMessageIOGateway::GetNumOutgoingDataBytes()=%u, the %u queued Messages hold %u raw bytes", when, sCR->GetNumOutgoingDataBytes(), q.GetNumItems(), sum));
+   }
+   virtual bool QueueNext() { if (queued >= planned) return false; status_t r = S()->AddOutgoingMessage(plan[queued]); if (r.IsError()) { Fail("gateway-error|AddOutgoingMessage", r()); return false; } queued++; CheckCounted("after AddOutgoingMessage"); return !failed; }
    virtual int NumActions() const { return 2; }
    virtual long Act(int a, uint32 mb)
    {
       // RawDataMessageIOGateway::DoOutputImplementation() calls itself once per chunk and once per partial write; that depth is driven by the local sender's
       // own Message and transport, not by the peer: Messages here hold <= 3 chunks, and a case whose transport dribbles writes byte by byte gets <= 3000 bytes per call
       if (capW < 0) capW = chop.dribble[0] > 0 ? 1 : 0;
-      if (a == 0) { if (mb > 3000 && capW) { mb = 3000; vh::stat("unspecified_sender_chunks_capped"); } return Io(S()->DoOutput(mb), "DoOutput"); }
+      if (a == 0) { if (mb > 3000 && capW) { mb = 3000; vh::stat("unspecified_sender_chunks_capped"); } long n = Io(S()->DoOutput(mb), "DoOutput"); CheckCounted("after DoOutput"); return failed ? -1 : n; }
       return Io(R()->DoInput(rx, mb), "DoInput");
    }
-   virtual void Finish()
+   virtual bool SupportsReset() const { return true; }
+   virtual void ResetAndReplan()
    {
-      if (gZeroChunks) {   // what arrives if every Message is cut off at its first 0-byte chunk (Message::FindData() fails on such an item and the senders' loops stop there)
+      Judge(true); if (failed) return;
+      S()->Reset(); R()->Reset(); RestartPipe(0); resets++; CheckCounted("after Reset()");
+      if (S()->HasBytesToOutput()) { Fail("reset|HasBytesToOutput", "the sender reports bytes to output right after Reset()"); return; }
+      Replan();
+   }
+   void Judge(bool prefixOnly)
+   {
+      if (gZeroChunks && !prefixOnly) {   // what arrives if every Message is cut off at its first 0-byte chunk (Message::FindData() fails on such an item and the senders' loops stop there)
          std::vector<std::string> t; std::string tcat, gcat; size_t ci = 0;
          for (size_t i = 0; i < plan.size(); i++) { uint32 n = plan[i]()->GetNumValuesInName(PR_NAME_DATA_CHUNKS); bool cut = false; for (uint32 j = 0; j < n; j++, ci++) { if (chunks[ci].empty()) cut = true; if (!cut) { t.push_back("B:" + chunks[ci]); tcat += chunks[ci]; } } }
          for (size_t i = 0; i < rx.got.size(); i++) gcat.append(rx.got[i], 2, std::string::npos);
          std::string all; for (size_t i = 0; i < chunks.size(); i++) all += chunks[i];
          if (tcat != all && (slip ? rx.got == t : (minChunk == 0 && gcat == tcat))) { Fail("zero-length-chunk-drops-rest-of-message", vh::fmt("a Message holds a 0-byte chunk followed by further chunks: the sender stops at the 0-byte item, %zu of %zu bytes arrive", tcat.size(), all.size())); return; }
       }
-      if (slip) { std::vector<std::string> exp; for (size_t i = 0; i < chunks.size(); i++) if (!chunks[i].empty()) exp.push_back("B:" + chunks[i]); CompareSeq(*this, "SLIP chunk", exp, rx.got, true); }
+      if (slip) { std::vector<std::string> exp; for (size_t i = 0; i < chunks.size(); i++) if (!chunks[i].empty()) exp.push_back("B:" + chunks[i]); if (prefixOnly) ComparePrefix(*this, "SLIP chunk (before Reset)", exp, rx.got, true); else CompareSeq(*this, "SLIP chunk", exp, rx.got, true); }
       else {
          std::string sent, got; for (size_t i = 0; i < chunks.size(); i++) sent += chunks[i];
          for (size_t i = 0; i < rx.got.size(); i++) {
@@ -386,11 +490,12 @@ struct RawSession : public Session {
             if (n == 0 || (minChunk && n < minChunk) || n > maxChunk) Fail("chunk-size", vh::fmt("received chunk %zu has %zu bytes; gateway constructed with minChunkSize=%u maxChunkSize=%u", i, n, minChunk, maxChunk));
          }
          size_t want = minChunk ? (sent.size() / minChunk) * minChunk : sent.size();   // a tail shorter than the minimum stays buffered
-         std::vector<std::string> e(1, sent.substr(0, want)), g(1, got); delivered += (long)rx.got.size() - 1; CompareSeq(*this, "raw byte stream", e, g, true);
+         if (prefixOnly) want = got.size() < sent.size() ? got.size() : sent.size();   // before a Reset(): any prefix
+         std::vector<std::string> e(1, sent.substr(0, want)), g(1, got); delivered += (long)rx.got.size() - 1; CompareSeq(*this, prefixOnly ? "raw byte stream (before Reset)" : "raw byte stream", e, g, true);
       }
-      EndState(S()->HasBytesToOutput(), "sender"); EndPipes(); EndStatus(*S(), "sender"); EndStatus(*R(), "receiver");
    }
-   virtual std::string Describe() const { std::string d = vh::fmt("minChunk=%u maxChunk=%u, %zu chunks, sizes:", minChunk, maxChunk, chunks.size()); for (size_t i = 0; i < chunks.size() && i < 40; i++) d += vh::fmt(" %zu", chunks[i].size()); return d; }
+   virtual void Finish() { Judge(false); EndState(S()->HasBytesToOutput(), "sender"); EndPipes(); EndStatus(*S(), "sender"); EndStatus(*R(), "receiver"); CheckCounted("at the end"); }
+   virtual std::string Describe() const { std::string d = vh::fmt("%sminChunk=%u maxChunk=%u, %zu chunks, sizes:", sCR ? "counted, " : "", minChunk, maxChunk, chunks.size()); for (size_t i = 0; i < chunks.size() && i < 40; i++) d += vh::fmt(" %zu", chunks[i].size()); return d; }
 };
 
 // ------------------------------------------------------------------------------------------------ WebSocket client <-> server
@@ -411,6 +516,11 @@ struct WsSession : public Session {
       else { C.SetRef(new WebSocketMessageIOGateway(&yes)); S.SetRef(new WebSocketMessageIOGateway(&no)); }
       if (slave) { int ec = (fixed || sq.R(3)) ? 0 : 6, es = (fixed || sq.R(3)) ? 0 : 1 + (int)sq.R(9); C()->SetSlaveGateway(AbstractMessageIOGatewayRef(new MessageIOGateway(MUSCLE_MESSAGE_ENCODING_DEFAULT + ec))); S()->SetSlaveGateway(AbstractMessageIOGatewayRef(new MessageIOGateway(MUSCLE_MESSAGE_ENCODING_DEFAULT + es))); }
       C()->SetDataIO(DummyDataIORef(cio)); S()->SetDataIO(DummyDataIORef(sio));
+      Replan();
+   }
+   void Replan()
+   {
+      plan.clear(); dir.clear(); expAtServer.clear(); expAtClient.clear(); rs.got.clear(); rc.got.clear(); queued = 0;
       uint32 nm = fixed == 2 ? 2 : fixed ? 6 : shortSeq ? 1 + sq.R(3) : 1 + sq.R(7);
       for (uint32 i = 0; i < nm; i++) {
          int d = fixed ? (int)(i % 2) : (int)sq.R(2); MessageRef m; std::vector<std::string> & exp = d == 0 ? expAtServer : expAtClient;
@@ -430,6 +540,16 @@ struct WsSession : public Session {
       planned = nm;
    }
    ~WsSession() { C()->SetDataIO(DataIORef()); S()->SetDataIO(DataIORef()); }
+   virtual bool SupportsReset() const { return true; }
+   virtual bool ResetAllowedNow() const { return !C()->IsHandshakeInProgress() && !S()->IsHandshakeInProgress(); }   // Reset() "leaves the handshake phase as it is": only once both ends have completed it
+   virtual void ResetAndReplan()
+   {
+      ComparePrefix(*this, slave ? "client->server Message (before Reset)" : "client->server item (before Reset)", expAtServer, rs.got, true);
+      ComparePrefix(*this, slave ? "server->client Message (before Reset)" : "server->client item (before Reset)", expAtClient, rc.got, true); if (failed) return;
+      C()->Reset(); S()->Reset(); RestartPipe(0); RestartPipe(1); resets++;
+      if (C()->HasBytesToOutput() || S()->HasBytesToOutput()) { Fail("reset|HasBytesToOutput", "a gateway reports bytes to output right after Reset()"); return; }
+      Replan();
+   }
    virtual bool QueueNext()
    {
       if (queued >= planned) return false;
@@ -464,6 +584,13 @@ struct WsForeignSession : public Session {
    {
       pipes.push_back(&in); pipes.push_back(&back); static const bool yes = true, no = false;
       gatewayIsServer = fixed ? true : sq.R(4) != 0; G.SetRef(new WebSocketMessageIOGateway(gatewayIsServer ? &no : &yes)); G()->SetDataIO(DummyDataIORef(gio));
+      Replan();
+   }
+   virtual bool SupportsReset() const { return true; }
+   virtual void ResetAndReplan() { ComparePrefix(*this, "foreign item (before Reset)", exp, rx.got, true); if (failed) return; G()->Reset(); RestartPipe(0); RestartPipe(1); resets++; Replan(); }
+   void Replan()
+   {
+      rawPlan.clear(); exp.clear(); rx.got.clear(); queued = 0;
       uint32 nm = fixed == 2 ? 2 : fixed ? 5 : shortSeq ? 1 + sq.R(4) : 1 + sq.R(8);
       for (uint32 i = 0; i < nm; i++) {
          bool text = fixed ? i % 2 == 0 : sq.R(2) != 0; uint32 len = WsLen(sq, shortSeq, fixed, i); std::string item = text ? RandLetters(sq, len) : RandBytes(sq, len);
@@ -592,9 +719,128 @@ struct CgwSession : public Session {
    virtual std::string Describe() const { std::string d = vh::fmt("direction %d, flattened sizes:", dirn); for (size_t i = 0; i < exp.size() && i < 30; i++) d += vh::fmt(" %zu", exp[i].size()); return d; }
 };
 
+// ------------------------------------------------------------------------------------------------ one Message to several sender gateways (reuse tag)
+// OptimizeMessageForTransmissionToMultipleGateways(): the SAME MessageRef is queued on 2-4 sender gateways (encodings equal / different; plain, counted,
+// templating, and a subclass whose outgoing Messages are deflated independently), each with its own receiver, pipe and schedule.  Every receiver must get
+// exactly what its sender was given, and the Message itself must flatten to the same bytes afterwards.
+class IndependentGateway : public MessageIOGateway { public: explicit IndependentGateway(int32 enc) : MessageIOGateway(enc) {} protected: virtual bool AreOutgoingMessagesIndependent() const { return true; } };
+struct FanoutSession : public Session {
+   struct Lane { Pipe pipe; ChopDataIO sio, rio; AbstractMessageIOGatewayRef S, R; Rx rx; std::vector<std::string> exp; int kind, enc; bool riskZ, riskT; CountedMessageIOGateway * sCounted;
+                 Lane(Chopper * c, uint8_t id) : pipe(chopio::FR_MUSCLE8), sio(NULL, &pipe, c, id, id), rio(&pipe, NULL, c, id, id), rx(0), kind(0), enc(0), riskZ(false), riskT(false), sCounted(NULL) {} };
+   std::vector<Lane *> lanes; std::vector<MessageRef> plan; std::vector<uint32> laneMask; std::vector<std::string> flatBefore; std::vector<Shape> shapes;
+   static const char * KindName(int k) { static const char * const n[] = {"plain", "counted", "templating", "independent"}; return n[k]; }
+   FanoutSession(const Cfg & c, uint64_t seqSeed, uint64_t schedSeed, bool s, int fx) : Session(c, seqSeed, schedSeed, s, fx)
+   {
+      const int D = MUSCLE_MESSAGE_ENCODING_DEFAULT; uint32 K = fixed ? 4 : 2 + sq.R(3); uint32 pat = sq.R(4); int e0 = sq.R(3) == 0 ? 0 : 1 + (int)sq.R(9);
+      for (uint32 i = 0; i < K; i++) {
+         Lane * l = new Lane(&chop, (uint8_t)i); lanes.push_back(l); pipes.push_back(&l->pipe);
+         if (fixed) { static const int FK[4] = {0, 1, 0, 2}, FE[4] = {0, 0, 6, 0}; l->kind = FK[i]; l->enc = FE[i]; }
+         else { uint32 r = sq.R(100); l->kind = r < 35 ? 0 : r < 48 ? 1 : r < 80 ? 2 : 3; l->enc = pat == 0 ? e0 : pat == 1 ? (int)((e0 + 3 * i) % 10) : pat == 2 ? (sq.R(2) ? 0 : e0) : (int)sq.R(10); if (l->kind == 3 && l->enc == 0) l->enc = 6; }
+         uint32 lru = sq.R(2) ? 2048 : 1024 * 1024;
+         switch (l->kind) {
+         case 0: l->S.SetRef(new MessageIOGateway(D + l->enc)); l->R.SetRef(new MessageIOGateway()); break;
+         case 1: l->S.SetRef(l->sCounted = new CountedMessageIOGateway(D + l->enc)); l->R.SetRef(new CountedMessageIOGateway()); break;
+         case 2: l->S.SetRef(l->sCounted = new TemplatingMessageIOGateway(lru, D + l->enc)); l->R.SetRef(new TemplatingMessageIOGateway(lru)); break;
+         default: l->S.SetRef(new IndependentGateway(D + l->enc)); l->R.SetRef(new MessageIOGateway()); break;
+         }
+         l->S()->SetDataIO(DummyDataIORef(l->sio)); l->R()->SetDataIO(DummyDataIORef(l->rio));
+      }
+      for (int i = 0; i < 3; i++) shapes.push_back(MakeShape(sq, 40 + i, 0, false));
+      Replan();
+   }
+   ~FanoutSession() { for (size_t i = 0; i < lanes.size(); i++) { lanes[i]->S()->SetDataIO(DataIORef()); lanes[i]->R()->SetDataIO(DataIORef()); delete lanes[i]; } }
+   void Replan()
+   {
+      plan.clear(); laneMask.clear(); flatBefore.clear(); queued = 0; const uint32 K = (uint32)lanes.size(), all = (1u << K) - 1;
+      for (uint32 i = 0; i < K; i++) { lanes[i]->exp.clear(); lanes[i]->rx.got.clear(); lanes[i]->riskZ = lanes[i]->riskT = false; }
+      static const uint32 T[] = {2046, 2047, 2048, 2049, 2050};
+      uint32 nm = fixed == 2 ? 2 : fixed ? 5 : shortSeq ? 2 + sq.R(4) : 3 + sq.R(10);
+      for (uint32 i = 0; i < nm; i++) {
+         MessageRef m; uint32 mask; bool tag;
+         if (fixed) { m = i == 0 ? GetMessageFromPool(7) : LocalMsg(sq); if (i == 3) { m = GetMessageFromPool(3); OKB(m()->AddInt32("n", 3)); if (!PadToFlatSize(*m(), 2040, sq, true)) HarnessAbort("fixed plan"); } mask = i == 2 ? 5u : i == 4 ? 10u : all; tag = i != 2; }
+         else {
+            m = sq.R(10) < 3 ? Instantiate(shapes[sq.R(3)], sq) : GenBinMsg(sq, false, shortSeq, plan, T, 5, 8, 200000);
+            if (sq.R(4) == 0) mask = 1u << sq.R(K); else { mask = 0; for (uint32 k = 0; k < K; k++) if (sq.R(10) < 7) mask |= 1u << k; while ((mask & (mask - 1)) == 0) mask |= 1u << sq.R(K); }
+            tag = (mask & (mask - 1)) ? sq.R(4) != 0 : sq.R(5) == 0;
+         }
+         if (tag) { OKB(OptimizeMessageForTransmissionToMultipleGateways(m)); if (!IsMessageOptimizedForTransmissionToMultipleGateways(m)) Fail("reuse-tag|not-reported", "IsMessageOptimizedForTransmissionToMultipleGateways() is false right after OptimizeMessageForTransmissionToMultipleGateways() returned OK"); }
+         plan.push_back(m); laneMask.push_back(mask); flatBefore.push_back(Flat(*m()));
+         if (mask & (mask - 1)) { if (tag) vh::stat("fanout_tagged_items_to_2plus_lanes"); else vh::stat("fanout_untagged_items_to_2plus_lanes"); }
+         if (IsMessageOptimizedForTransmissionToMultipleGateways(m)) for (uint32 a = 0; a < K; a++) for (uint32 b = a + 1; b < K; b++) if ((mask >> a & 1) && (mask >> b & 1) && lanes[a]->enc == lanes[b]->enc) {
+            Lane & x = *lanes[a]; Lane & y = *lanes[b];   // two senders that look up the same slot of the tag: which pairs may really share is the library's business
+            if (x.kind == 2 || y.kind == 2) { x.riskT = y.riskT = true; vh::stat(x.kind == y.kind ? "fanout_pairs_templating_templating" : "fanout_pairs_templating_other"); }
+            else if (x.enc == 0) vh::stat("fanout_pairs_default_default");
+            else if (x.kind == 3 && y.kind == 3) vh::stat("fanout_pairs_independent_same_zlib");
+            else { x.riskZ = y.riskZ = true; vh::stat((x.kind == 3 || y.kind == 3) ? "fanout_pairs_independent_dependent_same_zlib" : "fanout_pairs_dependent_same_zlib"); }
+         }
+      }
+      planned = nm;
+   }
+   void LaneFail(Lane & l, size_t li, const std::string & rule, const std::string & detail)
+   {
+      std::string d = vh::fmt("lane %zu (%s, encoding %d): ", li, KindName(l.kind), l.enc) + detail;
+      if (l.riskT) Fail("reuse-tag|templating-format", d + " | this lane and another lane with the same encoding, at least one of them templating, were given the same tagged Message");
+      else if (l.riskZ) Fail("reuse-tag|zlib-dependent-stream", d + " | this lane and another lane with the same zlib encoding were given the same tagged Message");
+      else Fail(rule, d);
+   }
+   void CheckCounted(Lane & l, size_t li, const char * when)
+   {
+      if (l.sCounted == NULL || failed) return;
+      uint32 sum = 0; const Queue<MessageRef> & q = l.S()->GetOutgoingMessageQueue(); for (uint32 i = 0; i < q.GetNumItems(); i++) sum += q[i]()->FlattenedSize();
+      if (l.sCounted->GetNumOutgoingDataBytes() != sum) Fail("counted-bytes", vh::fmt("lane %zu %s: GetNumOutgoingDataBytes()=%u, the %u queued Messages flatten to %u bytes", li, when, l.sCounted->GetNumOutgoingDataBytes(), q.GetNumItems(), sum));
+   }
+   virtual bool QueueNext()
+   {
+      if (queued >= planned) return false;
+      for (size_t i = 0; i < lanes.size(); i++) if (laneMask[queued] >> i & 1) {
+         lanes[i]->exp.push_back(flatBefore[queued]); status_t r = lanes[i]->S()->AddOutgoingMessage(plan[queued]); if (r.IsError()) { Fail("gateway-error|AddOutgoingMessage", r()); return false; }
+         CheckCounted(*lanes[i], i, "after AddOutgoingMessage");
+      }
+      queued++; return !failed;
+   }
+   virtual int NumActions() const { return 2 * (int)lanes.size(); }
+   virtual long Act(int a, uint32 mb)
+   {
+      size_t li = (size_t)a / 2; Lane & l = *lanes[li]; const bool out = (a % 2) == 0;
+      io_status_t st = out ? l.S()->DoOutput(mb) : l.R()->DoInput(l.rx, mb);
+      if (st.IsError()) { LaneFail(l, li, std::string("gateway-error|") + (out ? "DoOutput" : "DoInput"), vh::fmt("%s returned error [%s]", out ? "DoOutput" : "DoInput", st.GetStatus()())); return -1; }
+      if (out) CheckCounted(l, li, "after DoOutput");
+      return failed ? -1 : st.GetByteCount();
+   }
+   void JudgeLanes(bool prefixOnly)
+   {
+      for (size_t i = 0; i < lanes.size() && !failed; i++) {
+         Lane & l = *lanes[i]; const std::vector<std::string> & g = l.rx.got; std::vector<std::string> e = l.exp; if (prefixOnly && g.size() < e.size()) e.resize(g.size());
+         if (e != g && (l.riskT || l.riskZ)) { size_t k = 0; while (k < e.size() && k < g.size() && e[k] == g[k]) k++; LaneFail(l, i, "", vh::fmt("%zu Messages given to the sender, %zu received, first difference at index %zu", l.exp.size(), g.size(), k)); return; }
+         size_t before = failed ? 1 : 0; CompareSeq(*this, prefixOnly ? "Message (before Reset)" : "Message", e, g, true);
+         if (failed && !before) failDetail = vh::fmt("lane %zu (%s, encoding %d): ", i, KindName(l.kind), l.enc) + failDetail;
+      }
+      for (size_t i = 0; i < plan.size() && !failed; i++) if (Flat(*plan[i]()) != flatBefore[i]) Fail("message-modified-by-sending", vh::fmt("plan item %zu flattens to different bytes after it was sent (%zu bytes before)", i, flatBefore[i].size()));
+   }
+   virtual bool SupportsReset() const { return true; }
+   virtual void ResetAndReplan()
+   {
+      JudgeLanes(true); if (failed) return;
+      for (size_t i = 0; i < lanes.size(); i++) { lanes[i]->S()->Reset(); lanes[i]->R()->Reset(); RestartPipe(i); CheckCounted(*lanes[i], i, "after Reset()"); if (lanes[i]->S()->HasBytesToOutput()) Fail("reset|HasBytesToOutput", "a sender reports bytes to output right after Reset()"); }
+      resets++; if (!failed) Replan();
+   }
+   virtual void Finish()
+   {
+      JudgeLanes(false);
+      for (size_t i = 0; i < lanes.size(); i++) { EndState(lanes[i]->S()->HasBytesToOutput(), "a sender"); EndStatus(*lanes[i]->S(), "a sender"); EndStatus(*lanes[i]->R(), "a receiver"); CheckCounted(*lanes[i], i, "at the end"); }
+      EndPipes(); vh::stat("fanout_lanes", (long)lanes.size());
+   }
+   virtual std::string Describe() const
+   {
+      std::string d = "lanes:"; for (size_t i = 0; i < lanes.size(); i++) d += vh::fmt(" %zu=%s/enc%d", i, KindName(lanes[i]->kind), lanes[i]->enc);
+      d += "; items (flat size:lane mask[T=tagged]):"; for (size_t i = 0; i < plan.size() && i < 24; i++) d += vh::fmt(" %zu:%x%s", flatBefore[i].size(), laneMask[i], IsMessageOptimizedForTransmissionToMultipleGateways(plan[i]) ? "T" : ""); return d;
+   }
+};
+
 static Session * Make(const Cfg & c, uint64_t seqSeed, uint64_t schedSeed, bool shortSeq, int fixed)
 {
    switch (c.family) {
+   case F_FANOUT: return new FanoutSession(c, seqSeed, schedSeed, shortSeq, fixed);
    case F_MSG: case F_COUNTED: case F_TMPL: return new BinSession(c, seqSeed, schedSeed, shortSeq, fixed);
    case F_TEXT: case F_TEXTFOREIGN: return new TextSession(c, seqSeed, schedSeed, shortSeq, fixed);
    case F_RAW: case F_SLIP: return new RawSession(c, seqSeed, schedSeed, shortSeq, fixed);
@@ -623,8 +869,12 @@ static void RunPipeCase(long k, bool shortSeq, const std::vector<chopio::Xfer> *
    s->chop.DrawTemperament(); if (replay) s->chop.SetScript(*replay);
    vh::Rng sr(vh::mix64(schedSeed ^ 0x5C4EDULL));
    const int na = s->NumActions(); long steps = 0, idle = 0, forced = 0; const long budget = 400000; bool budgetHit = false;
+   // Reset-then-reuse: in a quarter of the cases both ends are Reset() once, either in mid-stream (partial frames on both ends, Messages still queued) or
+   // at quiescence of the first sequence; a second sequence follows and must be delivered exactly
+   const bool wantReset = (sr.R(4) == 0) && s->SupportsReset(); const bool resetMid = sr.R(2) == 0; const long resetAt = 1 + (long)sr.R(sr.R(2) ? 40 : 600); bool didReset = false;
    while (!s->failed) {
       bool prog = false;
+      if (wantReset && !didReset && resetMid && steps >= resetAt && s->ResetAllowedNow()) { s->ResetAndReplan(); didReset = true; idle = 0; vh::stat("resets_midstream"); vh::stat(std::string("resets_") + FamilyName(s->cfg.family)); continue; }
       if (s->queued < s->planned && (sr.R(5) == 0 || idle >= 4)) prog = s->QueueNext();
       if (!prog && !s->failed) { long n = s->Act((int)sr.R((uint32)na), PickMaxBytes(sr)); if (n > 0) prog = true; }
       steps++; if (prog) idle = 0; else idle++;
@@ -633,7 +883,11 @@ static void RunPipeCase(long k, bool shortSeq, const std::vector<chopio::Xfer> *
          if (s->queued < s->planned && s->QueueNext()) any = true;
          for (int a = 0; a < na && !s->failed; a++) { long n = s->Act(a, MUSCLE_NO_LIMIT); if (n > 0) any = true; }
          s->chop.force = false;
-         if (!any) { if (s->queued < s->planned && !s->failed) s->Fail("stalled", vh::fmt("item %u of %u cannot be queued and no gateway call moves a byte", s->queued, s->planned)); break; }
+         if (!any) {
+            if (s->queued < s->planned && !s->failed) s->Fail("stalled", vh::fmt("item %u of %u cannot be queued and no gateway call moves a byte", s->queued, s->planned));
+            if (wantReset && !didReset && !s->failed && s->ResetAllowedNow()) { s->Finish(); if (!s->failed) s->ResetAndReplan(); didReset = true; idle = 0; vh::stat("resets_at_quiescence"); vh::stat(std::string("resets_") + FamilyName(s->cfg.family)); continue; }
+            break;
+         }
          idle = 0;
       }
       if (steps == budget) { s->chop.mode = chopio::CM_EVERYTHING; budgetHit = true; }
@@ -761,8 +1015,90 @@ static void RegressRawRecursion()
       if (grow > 16 * (long)rx.depth.size()) { vh::viol("raw|unbounded-recursion-per-chunk", vh::fmt("RawDataMessageIOGateway(minChunkSize=1), %ld bytes readable, one DoInput(): the receiver callback of chunk %zu runs %ld stack bytes deeper than that of chunk 1 (%.0f bytes per chunk): DoInputImplementation() recurses once per chunk, an 8 MB stack overflows after about %.0f chunks", N, rx.depth.size(), grow, (double)grow / (rx.depth.size() - 1), 8.0 * 1024 * 1024 / ((double)grow / (rx.depth.size() - 1)))); return; }
    }
 }
+// ---- witnesses of the reuse-tag defects found by this harness (repaired in /repo: "fix: a Message tagged by OptimizeMessageForTransmissionToMultipleGateways() was
+// sent with another gateway's state-dependent bytes"): W1 two zlib senders with different deflate histories, W2 templating + plain, W3 two templating senders of
+// which only one already knows the template.  No chopping: the defect was in what the second sender put on the wire.
+struct MiniLane {
+   Pipe p; ChopDataIO sio, rio; AbstractMessageIOGatewayRef S, R; Rx rx; std::vector<std::string> exp; std::string err;
+   MiniLane(Chopper * c, AbstractMessageIOGateway * s, AbstractMessageIOGateway * r) : p(chopio::FR_MUSCLE8), sio(NULL, &p, c), rio(&p, NULL, c), S(s), R(r), rx(0) { S()->SetDataIO(DummyDataIORef(sio)); R()->SetDataIO(DummyDataIORef(rio)); }
+   ~MiniLane() { S()->SetDataIO(DataIORef()); R()->SetDataIO(DataIORef()); }
+   void Send(const MessageRef & m) { exp.push_back(Flat(*m())); if (S()->AddOutgoingMessage(m).IsError()) err = "AddOutgoingMessage failed"; }
+   void Pump() { for (int i = 0; i < 100; i++) { io_status_t a = S()->DoOutput(), b = R()->DoInput(rx); if (a.IsError() || b.IsError()) { if (err.empty()) err = vh::fmt("DoOutput [%s] DoInput [%s]", a.GetStatus()(), b.GetStatus()()); return; } if (a.GetByteCount() <= 0 && b.GetByteCount() <= 0) return; } }
+   std::string Verdict(const char * name) const { if (err.empty() && exp == rx.got) return ""; return vh::fmt("%s: %zu Messages given to the sender, %zu received%s%s", name, exp.size(), rx.got.size(), err.empty() ? ", content differs" : ", error: ", err.c_str()); }
+};
+static MessageRef TextMsg(uint32 what, const char * txt) { MessageRef m = GetMessageFromPool(what); std::string t; for (int i = 0; i < 6; i++) { t += txt; t += ' '; } OKB(m()->AddString("text", t.c_str())); OKB(m()->AddInt32("n", (int32)what)); return m; }
+static void RegressReuseTag()
+{
+   const int Z6 = MUSCLE_MESSAGE_ENCODING_ZLIB_6; Chopper chop(1); chop.mode = chopio::CM_EVERYTHING;
+   {  // W1
+      MiniLane a(&chop, new MessageIOGateway(Z6), new MessageIOGateway), b(&chop, new MessageIOGateway(Z6), new MessageIOGateway);
+      a.Send(TextMsg(1, "history of lane a: alpha alpha alpha")); b.Send(TextMsg(2, "lane b saw something else: beta beta")); a.Pump(); b.Pump();
+      MessageRef m = TextMsg(3, "the shared message alpha beta alpha beta"); OKB(OptimizeMessageForTransmissionToMultipleGateways(m)); OKB(OptimizeMessageForTransmissionToMultipleGateways(m)); std::string before = Flat(*m());
+      a.Send(m); b.Send(m); a.Pump(); b.Pump(); a.Send(TextMsg(4, "after")); b.Send(TextMsg(5, "after")); a.Pump(); b.Pump();
+      std::string v = a.Verdict("first zlib-6 sender") + b.Verdict("second zlib-6 sender"); if (!v.empty()) vh::viol("fanout|reuse-tag|zlib-dependent-stream", "two MessageIOGateway(ZLIB_6) senders with different histories, then one tagged MessageRef to both, then one more Message each: " + v);
+      else if (Flat(*m()) != before) vh::viol("fanout|message-modified-by-sending", "the tagged Message flattens differently after it was sent");
+   }
+   {  // W2, both orders
+      for (int order = 0; order < 2; order++) {
+         MiniLane t(&chop, new TemplatingMessageIOGateway, new TemplatingMessageIOGateway), p(&chop, new MessageIOGateway, new MessageIOGateway);
+         MessageRef m = TextMsg(3, "the shared message"); OKB(OptimizeMessageForTransmissionToMultipleGateways(m)); t.Send(m); p.Send(m); if (order) { p.Pump(); t.Pump(); } else { t.Pump(); p.Pump(); }
+         std::string v = t.Verdict("templating sender") + p.Verdict("plain sender"); if (!v.empty()) { vh::viol("fanout|reuse-tag|templating-format", vh::fmt("one tagged MessageRef to a TemplatingMessageIOGateway and a MessageIOGateway (default encoding), %s flattening first: ", order ? "plain" : "templating") + v); break; }
+      }
+   }
+   {  // W3
+      MiniLane a(&chop, new TemplatingMessageIOGateway, new TemplatingMessageIOGateway), b(&chop, new TemplatingMessageIOGateway, new TemplatingMessageIOGateway);
+      a.Send(TextMsg(1, "teach lane a the template")); a.Pump();
+      MessageRef m = TextMsg(3, "the shared message"); OKB(OptimizeMessageForTransmissionToMultipleGateways(m)); a.Send(m); b.Send(m); a.Pump(); b.Pump(); a.Send(TextMsg(4, "after")); b.Send(TextMsg(5, "after")); a.Pump(); b.Pump();
+      std::string v = a.Verdict("templating sender that knows the template") + b.Verdict("templating sender that does not"); if (!v.empty()) vh::viol("fanout|reuse-tag|templating-format", "two TemplatingMessageIOGateway senders, one tagged MessageRef to both: " + v);
+   }
+   {  // what must keep working: default+default+one zlib lane, and two senders whose Messages are deflated independently
+      MiniLane a(&chop, new MessageIOGateway, new MessageIOGateway), b(&chop, new CountedMessageIOGateway, new MessageIOGateway), z(&chop, new MessageIOGateway(Z6), new MessageIOGateway), i1(&chop, new IndependentGateway(Z6), new MessageIOGateway), i2(&chop, new IndependentGateway(Z6), new MessageIOGateway);
+      i1.Send(TextMsg(8, "private history of i1")); i1.Pump();
+      for (uint32 k = 0; k < 3; k++) { MessageRef m = TextMsg(10 + k, "shared by five senders"); OKB(OptimizeMessageForTransmissionToMultipleGateways(m)); a.Send(m); b.Send(m); z.Send(m); i1.Send(m); i2.Send(m); if (k % 2) { i2.Pump(); z.Pump(); b.Pump(); a.Pump(); i1.Pump(); } else { a.Pump(); b.Pump(); z.Pump(); i1.Pump(); i2.Pump(); } }
+      std::string v = a.Verdict("default") + b.Verdict("counted default") + z.Verdict("zlib-6") + i1.Verdict("independent zlib-6 #1") + i2.Verdict("independent zlib-6 #2"); if (!v.empty()) vh::viol("fanout|altered", "tagged Messages to default + counted + zlib-6 + two independent-deflate zlib-6 senders: " + v);
+      else vh::stat("regress_reuse_tag_lanes_ok", 5);
+   }
+}
+// ---- further fixed cases of the routes added with the coverage audit
+static void RegressTextAndCounted()
+{
+   Chopper chop(1); chop.mode = chopio::CM_EVERYTHING;
+   {  // an unterminated last line is delivered when the stream ends (PlainTextMessageIOGateway::FlushInput)
+      Pipe p(chopio::FR_LINES); ChopDataIO rio(&p, NULL, &chop); PlainTextMessageIOGateway R; R.SetDataIO(DummyDataIORef(rio)); Rx rx(1);
+      p.Append(std::string("abc\r\ndef")); p.closed = true; io_status_t s1 = R.DoInput(rx), s2 = R.DoInput(rx); R.SetDataIO(DataIORef());
+      std::vector<std::string> want; want.push_back("T:abc"); want.push_back("T:def");
+      if (rx.got != want || !s2.IsError()) vh::viol("regress-text-flush-at-end-of-stream", vh::fmt("stream 'abc\\r\\ndef' then end of stream: %zu lines delivered (want abc, def); DoInput returned %d then [%s]", rx.got.size(), s1.GetByteCount(), s2.GetStatus()()));
+   }
+   {  // a telnet command split across reads at every position is stripped all the same
+      const std::string stream = std::string("he") + (char)255 + (char)251 + (char)1 + "ll" + (char)255 + (char)250 + (char)24 + "junk\r\n" + (char)255 + (char)240 + "o\r\nnext\n";
+      for (size_t cut = 0; cut <= stream.size(); cut++) {
+         Pipe p(chopio::FR_LINES); ChopDataIO rio(&p, NULL, &chop); TelnetPlainTextMessageIOGateway R; R.SetDataIO(DummyDataIORef(rio)); Rx rx(1);
+         p.Append(stream); p.readLimit = cut; (void)R.DoInput(rx); (void)R.DoInput(rx); p.readLimit = chopio::NO_OFFSET_LIMIT; (void)R.DoInput(rx); (void)R.DoInput(rx); R.SetDataIO(DataIORef());
+         std::vector<std::string> want; want.push_back("T:hello"); want.push_back("T:next");
+         if (rx.got != want) { std::string g; for (size_t i = 0; i < rx.got.size(); i++) g += "[" + rx.got[i].substr(2) + "]"; vh::viol("regress-telnet-command-split", vh::fmt("'he' IAC WILL 1 'll' IAC SB 24 'junk CR LF' IAC SE 'o' CRLF 'next' LF delivered in two segments cut at offset %zu: received %s, want [hello][next]", cut, g.c_str())); break; }
+      }
+      vh::stat("regress_telnet_cut_positions", (long)stream.size() + 1);
+   }
+   {  // CountedRawDataMessageIOGateway: bytes of the Messages still in the outgoing queue
+      Pipe p; ChopDataIO sio(NULL, &p, &chop); CountedRawDataMessageIOGateway S; S.SetDataIO(DummyDataIORef(sio)); uint32 seen[5]; static const uint32 N[3] = {10, 20, 30};
+      for (int i = 0; i < 3; i++) { MessageRef m = GetMessageFromPool(PR_COMMAND_RAW_DATA); std::string b((size_t)N[i], (char)('a' + i)); OKB(m()->AddData(PR_NAME_DATA_CHUNKS, B_RAW_TYPE, b.data(), N[i])); OKB(S.AddOutgoingMessage(m)); seen[i] = S.GetNumOutgoingDataBytes(); }
+      (void)S.DoOutput(5); seen[3] = S.GetNumOutgoingDataBytes(); S.Reset(); seen[4] = S.GetNumOutgoingDataBytes(); S.SetDataIO(DataIORef());
+      if (seen[0] != 10 || seen[1] != 30 || seen[2] != 60 || seen[3] != 50 || seen[4] != 0) vh::viol("regress-countedraw", vh::fmt("GetNumOutgoingDataBytes() after adding 10, 20, 30 bytes: %u %u %u (want 10 30 60); after the first Message was taken from the queue: %u (want 50); after Reset(): %u (want 0)", seen[0], seen[1], seen[2], seen[3], seen[4]));
+   }
+   {  // Reset() in mid-stream on both ends of a zlib pair and of a templating pair, then a fresh stream
+      for (int t = 0; t < 2; t++) {
+         MiniLane l(&chop, t ? (AbstractMessageIOGateway *)new TemplatingMessageIOGateway(2048, MUSCLE_MESSAGE_ENCODING_ZLIB_6) : (AbstractMessageIOGateway *)new MessageIOGateway(MUSCLE_MESSAGE_ENCODING_ZLIB_6), t ? (AbstractMessageIOGateway *)new TemplatingMessageIOGateway(2048) : (AbstractMessageIOGateway *)new MessageIOGateway);
+         l.Send(TextMsg(1, "first stream, complete")); l.Pump(); l.Send(TextMsg(1, "first stream, cut in the middle of its frame")); (void)l.S()->DoOutput(20); (void)l.R()->DoInput(l.rx, 11);
+         std::string v = l.rx.got.size() == 1 && l.rx.got[0] == l.exp[0] ? "" : "first stream: the complete Message did not arrive; ";
+         l.S()->Reset(); l.R()->Reset(); l.p.Restart(); l.exp.clear(); l.rx.got.clear();
+         l.Send(TextMsg(1, "first stream, complete")); l.Send(TextMsg(2, "second stream")); l.Pump(); v += l.Verdict(t ? "templating zlib-6 pair after Reset()" : "zlib-6 pair after Reset()");
+         if (!v.empty()) vh::viol("regress-reset-midstream", v);
+      }
+   }
+}
 static void Regress()
 {
+   vh::begin_case(2000); RegressReuseTag(); vh::begin_case(2001); RegressTextAndCounted();
    vh::begin_case(1000); if (vh::opt("mask").find("rawrecursion") != std::string::npos) vh::stat("masked_rawrecursion"); else RegressRawRecursion();
    vh::begin_case(0); RegressWebSocket(true, "regress-F25"); vh::distinct(1);
    vh::begin_case(1); RegressWebSocket(false, "regress-F26"); vh::distinct(2);
